@@ -157,7 +157,14 @@ impl Search {
             self.log_uci_info(depth, Some(start.elapsed().as_millis()), &pv);
         }
 
-        self.log(format!("bestmove {}", self.info.best_move.unwrap()).as_str());
+        // A limit can fire before the first iteration completes: still answer with a legal move
+        if self.info.best_move.is_none() {
+            self.info.best_move = self.original_board.get_legal_moves().first().copied();
+        }
+        match self.info.best_move {
+            Some(best_move) => self.log(format!("bestmove {best_move}").as_str()),
+            None => self.log("bestmove 0000"),
+        }
     }
 
     /// Initializes the alpha-beta search and returns the best move found
